@@ -235,7 +235,7 @@ func run(c Case) (res ev.Result) {
 func genCase(t *rapid.T) Case {
 	var c Case
 	c.Res = rapid.OneOf(rapid.SampledFrom([]uint16{1, 2, 24, 96, 480, 960, 15360, 32767}), rapid.Uint16Range(1, 32767)).Draw(t, "res")
-	n := rapid.OneOf(rapid.IntRange(0, 6), rapid.IntRange(0, 40)).Draw(t, "nTempo")
+	n := rapid.OneOf(rapid.IntRange(0, 6), rapid.IntRange(0, 40), rapid.IntRange(0, 6), rapid.IntRange(0, 40), rapid.IntRange(150, 500)).Draw(t, "nTempo")
 	uspqGen := rapid.OneOf(rapid.SampledFrom([]uint32{1, 2, 1000, 250000, 500000, 1000000, 1<<24 - 2, 1<<24 - 1}), rapid.Uint32Range(1, 1<<24-1), rapid.Uint32Range(100000, 2000000))
 	var abs int64
 	var us float64
@@ -264,8 +264,11 @@ func genCase(t *rapid.T) Case {
 			c.Filler = append(c.Filler, i)
 		}
 	}
-	for _, tk := range ticks {
-		c.Queries = append(c.Queries, tk-1, tk, tk+1)
+	stride := len(ticks)/25 + 1 // large maps: the neighbourhood of every stride-th tempo event only
+	for i, tk := range ticks {
+		if i%stride == 0 || i == len(ticks)-1 {
+			c.Queries = append(c.Queries, tk-1, tk, tk+1)
+		}
 	}
 	nq := rapid.IntRange(1, 12).Draw(t, "nQueries")
 	maxQ := int64((horizonUS - us) * float64(c.Res) / cur)
